@@ -231,6 +231,21 @@ func c05(r *Run) {
 				}
 				r.guarded(fmt.Sprintf("C05.R12:detach-only-when-registered#%d", i), "the callback runner calls Control(PollDetach) only when the slot has a poller (operator.poll != nil): a connection closed inside OnPrepare was never registered, and Control would dereference a nil poller", fn, ctl, pollSet, nil, "guarded by operator.poll != nil")
 			}
+			// ... and only by the closer that owns the teardown: with needLock=true the detach comes after the processing lock was
+			// obtained - a Close that loses the lock to a running handler must not touch the slot, which that handler's finalizer
+			// frees and resets
+			for _, ctl := range findIns(fn, func(ins ssa.Instruction) bool { return ro.isControl(ins, ro.evDetach) }) {
+				needLockParam := func(v ssa.Value) (bool, bool) {
+					if p, ok := v.(*ssa.Parameter); ok && p.Parent() == fn && len(fn.Params) > 1 && p == fn.Params[1] {
+						return true, true
+					}
+					return false, false
+				}
+				ss := &Search{Fn: fn, Stop: func(ins ssa.Instruction) bool { return isKeyCall(ins, ro.lock, kP) }, Assume: needLockParam}
+				wit := ss.Find([]Start{Entry(fn)}, isIns(ctl), false)
+				s.Visited += ss.Visited
+				r.obW(fmt.Sprintf("C05.R12:detach-after-lock#%d", i), "a closer that has to take the processing lock detaches the descriptor only after it got the lock: the loser of that lock leaves the slot alone (the running handler's finalizer frees and resets it)", fn, ctl, wit, "lock(processing) dominates Control(PollDetach) when needLock")
+			}
 			r.obW(fmt.Sprintf("C05.R12:detach-before-callbacks#%d", i), "with needDetach=true (and a registered poll) Control(PollDetach) precedes the callbacks, which free the slot", fn, run, wit, "Control(PollDetach) on every path")
 			// once the lock is held (or was not needed) the callbacks are reached on every path that has callbacks: a failed
 			// detach is logged, not returned
@@ -343,6 +358,17 @@ func c05(r *Run) {
 				}
 				s.Visited += ss.Visited
 			}
+		}
+		// a node is linked to its predecessor before it becomes the head: the walk may start at any moment
+		{
+			publishes := findIns(fn, func(i ssa.Instruction) bool {
+				a := asAtomic(i)
+				return a != nil && (a.Op == "Store" || a.Op == "Swap" || a.Op == "CompareAndSwap") && structFieldOfAddr(a.Addr) == "onEvent.closeCallbacks"
+			})
+			ss := &Search{Fn: fn}
+			wit := ss.Find(startsAfter(publishes), func(i ssa.Instruction) bool { return isStoreToField(i, "callbackNode", "pre") }, false)
+			s.Visited += ss.Visited
+			r.obW("C05.R5:node-linked-before-published", "a callback node gets its link to the previous head before it is published as the new head: a node published first is walked (by a concurrent close) while its link is still being written", fn, nil, wit, "no store to callbackNode.pre after the head was replaced")
 		}
 		r.ob("C05.R5:register-is-one-step", "registering a close callback reads the list head and replaces it in one atomic step (under a lock, or by compare-and-swap): interleaved registrations do not lose a callback", fn, nil, okAtomic, detail, true)
 	}
@@ -573,14 +599,7 @@ func c05(r *Run) {
 		}
 		for _, site := range sites {
 			site := site
-			ss := &Search{Fn: fn, Stop: func(ins ssa.Instruction) bool {
-				st, ok := ins.(*ssa.Store)
-				if !ok || !isStoreToField(ins, "netFD", "detaching") {
-					return false
-				}
-				v, okc := constInt(st.Val)
-				return okc && v == 1
-			}}
+			ss := &Search{Fn: fn, Stop: isDetachMark}
 			wit := ss.Find([]Start{Entry(fn)}, func(ins ssa.Instruction) bool { return ins == site }, false)
 			s.Visited += ss.Visited
 			r.obW("C05.R10:detach-marks-first", "Detach sets netFD.detaching before the teardown starts on every path, so the finalizer does not close the descriptor that is being handed over (also when the peer already closed)", fn, site, wit, "detaching=true dominates onClose")
@@ -794,12 +813,19 @@ func c05OnceGuards(r *Run, ro *Roles, s *Search) {
 		}
 	}
 	first := cmpAtom(isAddOn("netFD.closed"), isConstEq(1), eqRel)
-	notDetaching := func(v ssa.Value) (bool, bool) {
+	notDetaching := anyAtom(func(v ssa.Value) (bool, bool) {
 		if _, ok := loadOfField(v, "netFD", "detaching"); ok {
 			return false, true
 		}
 		return false, false
-	}
+	}, cmpAtom(func(v ssa.Value) bool {
+		c, ok := v.(*ssa.Call)
+		if !ok {
+			return false
+		}
+		a := asAtomic(c)
+		return a != nil && a.Op == "Load" && structFieldOfAddr(a.Addr) == "netFD.detaching"
+	}, isConstEq(0), eqRel))
 	for i, site := range sysClose {
 		wit := guardWitness(fn, site, first, s)
 		r.obW(fmt.Sprintf("C05.R6:close-once#%d", i), "close(fd) is issued only by the caller that moved the closed counter from 0 to 1", fn, site, wit, "guarded by AddUint32(&closed,1)==1")
@@ -895,4 +921,17 @@ func c05OnceGuards(r *Run, ro *Roles, s *Search) {
 	if r.keep == nil {
 		closeWakeRules(r, "C05.R13")
 	}
+}
+
+// isDetachMark: the instruction sets netFD.detaching (plain store of true, or an atomic store of 1).
+func isDetachMark(ins ssa.Instruction) bool {
+	if st, ok := ins.(*ssa.Store); ok && isStoreToField(ins, "netFD", "detaching") {
+		v, okc := constInt(st.Val)
+		return okc && v == 1
+	}
+	if a := asAtomic(ins); a != nil && (a.Op == "Store" || a.Op == "Swap") && structFieldOfAddr(a.Addr) == "netFD.detaching" {
+		v, okc := constInt(a.Args[0])
+		return okc && v == 1
+	}
+	return false
 }
